@@ -1,5 +1,10 @@
+import os, sys
+sys.path.insert(0, os.path.dirname(os.path.dirname(os.path.abspath(__file__))))
+import coqreplay as _coqreplay
+
 PROP = {
     "coq": ["C01"],
+    "extra": [_coqreplay.replay_cc],
     "exhaustive": False,
     "rule": "Public client calls on a scripted connection (tcp and rtuovertcp framing), peer silent: all 30 read/write calls x "
             "boundary-directed addresses/quantities/slice lengths (0, 1, limit-1, limit, limit+1, 65535, lengths >= 65536, "
